@@ -64,7 +64,8 @@ Definition starts_with (p s : str) : bool :=
 (* ---- escapes ------------------------------------------------------------ *)
 (* as_escaped_char: None is the code's -1 *)
 Definition as_escaped_char (c : Z) (chr : bool) : option Z :=
-  if c =? 7 then Some 97 else if c =? 8 then Some 98 else if c =? 9 then Some 116
+  if c =? 0 then (if chr then Some 48 else None)
+  else if c =? 7 then Some 97 else if c =? 8 then Some 98 else if c =? 9 then Some 116
   else if c =? 10 then Some 110 else if c =? 11 then Some 118 else if c =? 12 then Some 102
   else if c =? 13 then Some 114 else if c =? 92 then Some 92
   else if chr && (c =? 39) then Some 39
@@ -226,4 +227,189 @@ Definition av_type (v : av) : Z :=
   | VI _ => 105 | VH _ => 104 | VC _ => 99 | VT => 84 | VF => 70 | VN => 78 | VInf => 73
   | VS _ => 115 | VSym _ => 83 | VB _ => 98 | VM _ _ _ _ => 109 | VR _ => 114
   | VFl _ => 102 | VD _ => 100 | VTm _ => 116 | VArr _ _ => 97 | VRep _ _ => 45 | VSpc _ => 32
+  end.
+
+(* ---- strings as values ------------------------------------------------------ *)
+Definition str_eqb (a b : str) : bool :=
+  Nat.eqb (List.length a) (List.length b) && starts_with a b.
+(* sign of strcmp *)
+Fixpoint str_cmp (a b : str) : Z :=
+  match a, b with
+  | [], [] => 0
+  | [], _ :: _ => -1
+  | _ :: _, [] => 1
+  | x :: a', y :: b' => if x =? y then str_cmp a' b' else if x <? y then -1 else 1
+  end.
+
+(* ---- arg-val-math.c / arg-val-cmp.c on single values ------------------------- *)
+(* None = a case this model does not cover (float arithmetic, blobs, NULL
+   strings, the code's assert(false) paths) *)
+Definition wrap64 (v : Z) : Z := (v + 2 ^ 63) mod 2 ^ 64 - 2 ^ 63.
+Definition cmp3 (a b : Z) : Z := if a =? b then 0 else if b <? a then 1 else -1.
+
+(* IEEE comparison on bit patterns (ebits exponent bits, mbits fraction bits) *)
+Definition fl_isnan (mbits ebits b : Z) : bool :=
+  (b / 2 ^ mbits mod 2 ^ ebits =? 2 ^ ebits - 1) && negb (b mod 2 ^ mbits =? 0).
+Definition fl_key (mbits ebits b : Z) : Z :=
+  let mag := b mod 2 ^ (mbits + ebits) in
+  if b / 2 ^ (mbits + ebits) mod 2 =? 1 then - mag else mag.
+Definition fl_eq (mbits ebits a b : Z) : bool :=
+  negb (fl_isnan mbits ebits a) && negb (fl_isnan mbits ebits b) &&
+  (fl_key mbits ebits a =? fl_key mbits ebits b).
+
+Definition av_from_int (ty : Z) (n : Z) : option av :=
+  if ty =? 104 then Some (VH n) else if ty =? 105 then Some (VI n)
+  else if ty =? 99 then Some (VC n)
+  else if (ty =? 84) || (ty =? 70) then Some (if n =? 0 then VF else VT) else None.
+
+Definition av_null (ty : Z) : option av :=
+  if ty =? 104 then Some (VH 0) else if ty =? 105 then Some (VI 0)
+  else if ty =? 99 then Some (VC 0) else if ty =? 114 then Some (VR 0)
+  else if ty =? 116 then Some (VTm 0) else if ty =? 102 then Some (VFl 0)
+  else if ty =? 100 then Some (VD 0)
+  else if (ty =? 84) || (ty =? 70) then Some VF else None.
+
+Definition av_negate (v : av) : option av :=
+  match v with
+  | VH h => Some (VH (wrap64 (- h))) | VI i => Some (VI (wrap32 (- i)))
+  | VC c => Some (VC (wrap32 (- c))) | VT => Some VF | VF => Some VT
+  | _ => None
+  end.
+
+Definition av_add (l r : av) : option av :=
+  match l, r with
+  | VH a, VH b => Some (VH (wrap64 (a + b)))
+  | VI a, VI b => Some (VI (wrap32 (a + b)))
+  | VC a, VC b => Some (VC (wrap32 (a + b)))
+  | VT, VT | VF, VF => Some VF
+  | VT, VF | VF, VT => Some VT
+  | _, _ => None
+  end.
+
+Definition av_sub (l r : av) : option av :=
+  match l, r with
+  | VH a, VH b => Some (VH (wrap64 (a - b)))
+  | VI a, VI b => Some (VI (wrap32 (a - b)))
+  | VC a, VC b => Some (VC (wrap32 (a - b)))
+  | VT, VT | VF, VF => Some VF
+  | VT, VF | VF, VT => Some VT
+  | _, _ => None
+  end.
+
+Definition av_mult (l r : av) : option av :=
+  match l, r with
+  | VH a, VH b => Some (VH (wrap64 (a * b)))
+  | VI a, VI b => Some (VI (wrap32 (a * b)))
+  | VC a, VC b => Some (VC (wrap32 (a * b)))
+  | VT, VT => Some VT
+  | VF, VF | VT, VF | VF, VT => Some VF
+  | _, _ => None
+  end.
+
+(* C division truncates; division by zero and MIN / -1 trap *)
+Definition cdiv (lo a b : Z) : option Z :=
+  if (b =? 0) || ((a =? lo) && (b =? -1)) then None else Some (Z.quot a b).
+Definition av_div (l r : av) : option av :=
+  match l, r with
+  | VH a, VH b => match cdiv (- 2 ^ 63) a b with Some q => Some (VH q) | None => None end
+  | VI a, VI b => match cdiv (- 2 ^ 31) a b with Some q => Some (VI q) | None => None end
+  | VC a, VC b => match cdiv (- 2 ^ 31) a b with Some q => Some (VC q) | None => None end
+  | VT, VT => Some VT
+  | _, _ => None
+  end.
+
+Definition av_to_int (v : av) : option Z :=
+  match v with
+  | VH h => Some (wrap32 h) | VI i => Some i | VC c => Some c
+  | VT => Some 1 | VF => Some 0 | _ => None
+  end.
+
+(* rtosc_arg_vals_eq_single for values that are neither arrays nor ranges *)
+Definition av_eq_single (l r : av) : option bool :=
+  match l, r with
+  | VI a, VI b | VC a, VC b | VR a, VR b | VH a, VH b | VTm a, VTm b => Some (a =? b)
+  | VT, VT | VF, VF | VN, VN | VInf, VInf => Some true
+  | VFl a, VFl b => Some (fl_eq 23 8 a b)
+  | VD a, VD b => Some (fl_eq 52 11 a b)
+  | VM a0 a1 a2 a3, VM b0 b1 b2 b3 => Some ((a0 =? b0) && (a1 =? b1) && (a2 =? b2) && (a3 =? b3))
+  | VS a, VS b | VSym a, VSym b | VB a, VB b => Some (str_eqb a b)
+  | VArr _ _, _ | _, VArr _ _ | VRep _ _, _ | _, VRep _ _ | VSpc _, _ | _, VSpc _ => None
+  | _, _ => Some false
+  end.
+
+(* rtosc_arg_vals_cmp_single: only zero / sign are used by the callers *)
+Definition av_cmp_single (l r : av) : option Z :=
+  match l, r with
+  | VI a, VI b | VC a, VC b | VR a, VR b | VH a, VH b => Some (cmp3 a b)
+  | VT, VT | VF, VF | VN, VN | VInf, VInf => Some 0
+  | VFl a, VFl b => if fl_isnan 23 8 a || fl_isnan 23 8 b then None
+                    else Some (cmp3 (fl_key 23 8 a) (fl_key 23 8 b))
+  | VD a, VD b => if fl_isnan 52 11 a || fl_isnan 52 11 b then None
+                  else Some (cmp3 (fl_key 52 11 a) (fl_key 52 11 b))
+  | VTm a, VTm b => Some (if a =? 1 then (if b =? 1 then 0 else -1)
+                          else if b =? 1 then 1 else cmp3 a b)
+  | VS a, VS b | VSym a, VSym b => Some (str_cmp a b)
+  | VM _ _ _ _, VM _ _ _ _ | VB _, VB _ => None
+  | VArr _ _, _ | _, VArr _ _ | VRep _ _, _ | _, VRep _ _ | VSpc _, _ | _, VSpc _ => None
+  | _, _ => Some (if av_type r <? av_type l then 1 else -1)
+  end.
+
+Definition types_match (t1 t2 : Z) : bool :=
+  (t1 =? t2) || ((t1 =? 84) && (t2 =? 70)) || ((t1 =? 70) && (t2 =? 84)).
+Definition arraytypes_match (t1 t2 : Z) : bool :=
+  (t1 =? 45) || (t2 =? 45) || types_match t1 t2.
+
+(* rtosc_arg_val_range_arg(range, ith): start + ith * delta *)
+Definition range_arg (delta start : av) (ith : Z) : option av :=
+  match av_from_int (av_type delta) ith with
+  | Some n => match av_mult n delta with
+              | Some m => av_add start m
+              | None => None end
+  | None => None
+  end.
+
+(* delta_from_arg_vals: Some (returned number, delta) *)
+Definition delta_from_arg_vals (llhs lhs : av) (rhs : option av) (must_be_unity : bool)
+  : option (Z * av) :=
+  let dc :=
+    if must_be_unity then
+      match rhs with
+      | Some r =>
+          match av_cmp_single lhs r, av_from_int (av_type r) 1 with
+          | Some c, Some one =>
+              if 0 <? c then match av_negate one with Some d => Some (d, c) | None => None end
+              else Some (one, c)
+          | _, _ => None
+          end
+      | None => None
+      end
+    else
+      match av_sub lhs llhs with
+      | Some d => match av_null (av_type d) with
+                  | Some z => match av_cmp_single d z with Some c => Some (d, c) | None => None end
+                  | None => None end
+      | None => None
+      end in
+  match dc with
+  | None => None
+  | Some (delta, c) =>
+      if c =? 0 then Some (-1, delta) else
+      match rhs with
+      | None => Some (0, delta)
+      | Some r =>
+          match av_sub r lhs with
+          | Some width =>
+              match av_div width delta with
+              | Some dv =>
+                  match av_mult dv delta with
+                  | Some width2 =>
+                      match av_eq_single width width2, av_to_int dv with
+                      | Some true, Some n => Some (n + 1, delta)
+                      | Some false, _ => Some (-1, delta)
+                      | _, _ => None
+                      end
+                  | None => None end
+              | None => None end
+          | None => None end
+      end
   end.
